@@ -16,6 +16,7 @@ PENDING = "contracts for this property are not yet in place in this revision (se
 
 LEVEL_TEXT = {
     "proof": "every obligation generated from the current /repo source for the functions under contract (pre/postconditions, loop invariants, call-site preconditions, frames) is discharged by an SMT solver for all inputs, with exact 64-bit integer semantics; a failing obligation is reported by name with the solver's model",
+    "exploration": "a labelled BOUNDED STAND-IN, not a proof: the real code is run over a stated finite/random space and an oracle is checked; used only where no contract within the generator's reach can carry the property",
     "other": "contract obligations discharged by SMT for the functions listed in the evidence, plus labelled bounded stand-ins (never counted as proved) for the part no contract within reach can carry",
 }
 
